@@ -592,11 +592,9 @@ func main() {
 		}
 		r := rs[0]
 		path, ok := minimise(bin, *prop, *tier, *features, r, sig, *noShrink)
-		if !ok {
-			// try another seed of the same signature
-			if len(rs) > 1 {
-				path, ok = minimise(bin, *prop, *tier, *features, rs[1], sig, *noShrink)
-			}
+		// try other seeds of the same signature
+		for k := 1; !ok && k < len(rs) && k < 6; k++ {
+			path, ok = minimise(bin, *prop, *tier, *features, rs[k], sig, *noShrink)
 		}
 		if !ok {
 			fmt.Printf("NON-REPRODUCIBLE candidate property=%s signature=%s seed=%d (not reported as violation)\n", *prop, sig, r.Seed)
@@ -799,19 +797,31 @@ func minimise(bin, prop, tier, features string, r Result, sig string, noShrink b
 	tries := 0
 	startT := time.Now()
 	var lastRes *Result
+	flaky := false
 	test := func(tp []uint32) bool {
 		tries++
 		f, _ := os.CreateTemp(dir, "cand-*.json")
 		json.NewEncoder(f).Encode(replayFile{Property: prop, Seed: r.Seed, Tier: tier, Features: features, Finding: curFinding, Tape: tp})
 		f.Close()
 		defer os.Remove(f.Name())
-		sigs, res, _, st := runReplay(bin, f.Name())
-		if st != "" {
-			return false
+		// a crash can come from real nondeterminism the change itself introduced (e.g. a select
+		// over several closed channels): give crash-class candidates a few attempts
+		attempts := 1
+		if strings.Contains(sig, "/crash:") || strings.Contains(sig, "/race:") {
+			attempts = 4
 		}
-		if sigs[sig] {
-			lastRes = res
-			return true
+		for a := 0; a < attempts; a++ {
+			sigs, res, _, st := runReplay(bin, f.Name())
+			if st != "" {
+				return false
+			}
+			if sigs[sig] {
+				lastRes = res
+				if a > 0 {
+					flaky = true
+				}
+				return true
+			}
 		}
 		return false
 	}
@@ -908,10 +918,21 @@ func minimise(bin, prop, tier, features string, r Result, sig string, noShrink b
 	}
 	b, _ := json.MarshalIndent(rf, "", " ")
 	os.WriteFile(path, b, 0o644)
-	sigs, _, _, st := runReplay(bin, path)
-	if st != "" || !sigs[sig] {
+	confirmed := false
+	for a := 0; a < 5 && !confirmed; a++ {
+		sigs, _, _, st := runReplay(bin, path)
+		if st == "" && sigs[sig] {
+			confirmed = true
+		} else if !flaky && !strings.Contains(sig, "/crash:") {
+			break
+		}
+	}
+	if !confirmed {
 		os.Remove(path)
 		return "", false
+	}
+	if flaky {
+		fmt.Printf("note: %s does not reproduce on every attempt (the crash depends on a choice the Go runtime makes, e.g. a select with several ready cases)\n", sig)
 	}
 	rel, err := filepath.Rel(root, path)
 	if err == nil {
